@@ -148,10 +148,12 @@ func checkRoundTrip(r *core.Run, dialect, stmt, source string) bool {
 	r.Tag("roundtrip:"+word, "source:"+source)
 	switch word {
 	case "same":
+		checkLexemes(r, dialect, stmt, source)
 		return true
 	case "unparseable":
 		return false
 	}
+	checkLexemes(r, dialect, stmt, source)
 	kind := stmtKind(stmt)
 	if word == "reparse-fails" && strings.HasPrefix(dialect, "my") && hasIntervalString(dialect, stmt) {
 		// known: Acra's grammar takes INTERVAL '<string>' only as the PostgreSQL form and rejects it in the MySQL
@@ -239,12 +241,35 @@ func trunc(s string) string {
 }
 
 func run(r *core.Run) {
-	r.Rule = "literal codec: byte strings (random over all 256 values, boundary: every escaped byte, the \\x prefix, quotes, long) through the real printer and tokenizer vs the model; statements: Acra's own parser test tables (read from sqlparser/*_test.go), one template per clause/expression form × literal spellings × dialects, and text splices of printed sub-expressions into every expression position; a case is non-trivial when the statement parses; distinct by text; expression fragment: every ordered pair of infix operators of the model's regenerated operator table (`a op1 b op2 c`, BETWEEN included), every prefix/postfix operator against every infix one and against each other, with column, literal and signed operands, in both dialects; random trees with random parenthesisation (0/20/50/90 % of the children wrapped) through the real printer, tokenizer and parser and the model's; variant spellings (upper case, <>, mod, &&, ||, white space); value substitution in parsed trees; token-level mutations as malformed stream"
+	r.Rule = "literal codec: byte strings (random over all 256 values, boundary: every escaped byte, the \\x prefix, quotes, long) through the real printer and tokenizer vs the model; statements: Acra's own parser test tables (read from sqlparser/*_test.go), one template per clause/expression form × literal spellings × dialects, and text splices of printed sub-expressions into every expression position; a case is non-trivial when the statement parses; distinct by text; expression fragment: every ordered pair of infix operators of the model's regenerated operator table (`a op1 b op2 c`, BETWEEN included), every prefix/postfix operator against every infix one and against each other, with column, literal and signed operands, in both dialects; random trees with random parenthesisation (0/20/50/90 % of the children wrapped) through the real printer, tokenizer and parser and the model's; variant spellings (upper case, <>, mod, &&, ||, white space); value substitution in parsed trees; token-level mutations as malformed stream; grammar-derived statements: for every alternative of every rule of sql.y reachable from the DML statements (regenerated table) a statement containing it, every nullable symbol of the alternative empty and non-empty, every lexeme token with a text of its own; on every parseable statement of every stream the token-conservation oracle (every literal / identifier / placeholder lexeme of the text re-appears in String(Parse s), multisets, pinned exemptions)"
+	runLexemeCorpus(r)
 	runLiterals(r)
 	runIdents(r)
 	runExprs(r)
+	runSelects(r)
 	runStatements(r)
 	runForms(r)
+	runGrammar(r)
+}
+
+// lexemeWitnesses: statements that lost a lexeme on the pinned tree (regression corpus of the token-conservation
+// oracle, run first): unary minus in front of an integer literal with a type cast built a new literal without the cast
+// (`-5::int4` was re-serialised as `-5`) – repaired, repo-patches/131.
+var lexemeWitnesses = []string{
+	"select -5::int4 from t",
+	"select - -5::int4 from t",
+	"select a from t where b > -1::numeric and c = +2::int8",
+	"update t set a = -3::int2 where b = 1",
+	"insert into t (a) values (-7::bigint)",
+}
+
+func runLexemeCorpus(r *core.Run) {
+	for _, w := range lexemeWitnesses {
+		for _, d := range []string{"pg", "my"} {
+			r.Begin("lexeme-corpus:"+d+":"+w, true, "stream:corpus", "dialect:"+d)
+			checkRoundTrip(r, d, w, "corpus")
+		}
+	}
 }
 
 // ---------- literal codec ----------
